@@ -55,11 +55,12 @@ package consul
 //@ // ---- C14: every generated route command has passed fabio's own parser ---------------------------------------
 //@ func validateCommand
 //@   props C14
-//@   requires parserReady()
-//@   assigns bufOf
+//@   requires buildReady()
+//@   // builds a scratch table of its own: the writes are to the scratch buffers and to route objects it allocates
+//@   assigns bufOf, builtFrom, mapsOf(map[string]route.Routes), elems(*route.Route), route.Route.Targets, route.Route.wTargets, elems(*route.Target), route.Target.Weight, route.Target.FixedWeight, route.Target.accessRules, elems(interface{}), mapsOf(map[string][]interface{}), ioWrites, lastWrite
 //@   ensures nopanic
-//@   ensures (result == nil) == accepts(cmd)
-//@   ensures forall x *bytes.Buffer :: !fresh(x) ==> bufOf[x] == old(bufOf[x])
+//@   // accepted means: fabio's parser takes it, it is exactly ONE 'route add' definition, and a table can be built from it
+//@   ensures result == nil ==> accepts(cmd) && singleAdd(cmd) && tableAccepts(cmd)
 //@
 //@ func parseURLPrefixTag
 //@   props C14
@@ -85,26 +86,30 @@ package consul
 //@
 //@ func (routecmd).build
 //@   props C14
-//@   requires r.svc != nil && parserReady()
-//@   assigns bufOf, ioWrites, lastWrite
+//@   requires r.svc != nil && buildReady()
+//@   assigns bufOf, builtFrom, mapsOf(map[string]route.Routes), elems(*route.Route), route.Route.Targets, route.Route.wTargets, elems(*route.Target), route.Target.Weight, route.Target.FixedWeight, route.Target.accessRules, elems(interface{}), mapsOf(map[string][]interface{}), ioWrites, lastWrite
 //@   ensures nopanic
 //@   // validate-before-emit: whatever the registration contains, only commands the parser accepts are emitted
-//@   ensures forall i int :: 0 <= i && i < len(result) ==> accepts(result[i])
+//@   ensures forall i int :: 0 <= i && i < len(result) ==> accepts(result[i]) && singleAdd(result[i]) && tableAccepts(result[i])
 //@   loop 1 invariant (cap(svctags) == 0 || fresh(svctags)) && (cap(routetags) == 0 || fresh(routetags)) && (cap(svctags) == 0 || cap(routetags) == 0 || ref(svctags) != ref(routetags))
 //@   loop 2 invariant cap(config) == 0 || fresh(config)
-//@   loop 2 invariant forall i int :: 0 <= i && i < len(config) ==> accepts(config[i])
+//@   loop 2 invariant forall i int :: 0 <= i && i < len(config) ==> accepts(config[i]) && singleAdd(config[i]) && tableAccepts(config[i])
 //@   loop 3 invariant (cap(config) == 0 || fresh(config)) && (cap(ropts) == 0 || fresh(ropts)) && (cap(config) == 0 || cap(ropts) == 0 || ref(config) != ref(ropts))
-//@   loop 3 invariant forall i int :: 0 <= i && i < len(config) ==> accepts(config[i])
+//@   loop 3 invariant forall i int :: 0 <= i && i < len(config) ==> accepts(config[i]) && singleAdd(config[i]) && tableAccepts(config[i])
+//@   // the service's plain tags and the route options are put into the command through strconv.Quote: what a tag
+//@   // contains (quotes, line breaks) can never end the quoted field early and smuggle in grammar of its own
+//@   at "cfg += \" tags \" + strconv.Quote(strings.Join(svctags, \",\"))" assert exists p string :: cfg == p + (" tags " + strQuote(joinSpec(svctags, ",", len(svctags))))
+//@   at "cfg += \" opts \" + strconv.Quote(strings.Join(ropts, \" \"))" assert exists p string :: cfg == p + (" opts " + strQuote(joinSpec(ropts, " ", len(ropts))))
 //@   // the weight and the options of a command come from this tag's own option words and from nothing else
 //@   loop 3 invariant cap(ropts) == 0 || ref(ropts) != ref(rangeover)
 //@   loop 3 invariant @C14 weight == weightOf(rangeover, rangeindex+1) && len(ropts) == nOpts(rangeover, rangeindex+1)
 //@
 //@ func (*ServiceMonitor).serviceConfig
 //@   props C14
-//@   requires w != nil && w.client != nil && w.config != nil && parserReady()
-//@   assigns bufOf, ioWrites, lastWrite
+//@   requires w != nil && w.client != nil && w.config != nil && buildReady()
+//@   assigns bufOf, builtFrom, mapsOf(map[string]route.Routes), elems(*route.Route), route.Route.Targets, route.Route.wTargets, elems(*route.Target), route.Target.Weight, route.Target.FixedWeight, route.Target.accessRules, elems(interface{}), mapsOf(map[string][]interface{}), ioWrites, lastWrite
 //@   ensures nopanic
 //@   // the commands of one service are the concatenation of what build emitted for its passing instances
-//@   ensures forall i int :: 0 <= i && i < len(config) ==> accepts(config[i])
+//@   ensures forall i int :: 0 <= i && i < len(config) ==> accepts(config[i]) && singleAdd(config[i]) && tableAccepts(config[i])
 //@   loop 1 invariant cap(config) == 0 || fresh(config)
-//@   loop 1 invariant forall i int :: 0 <= i && i < len(config) ==> accepts(config[i])
+//@   loop 1 invariant forall i int :: 0 <= i && i < len(config) ==> accepts(config[i]) && singleAdd(config[i]) && tableAccepts(config[i])
